@@ -696,6 +696,33 @@ pub fn finalize_with_monitors(w: &mut World, actor: &str, psbt: &mut Psbt, v: u6
                     break;
                 }
             }
+            // I5-order: which inputs can be finalised must not depend on the order of the
+            // finalize-single-input calls: the same PSBT, the inputs taken in the opposite order
+            if on && n > 1 && !w.mon.corruption && !w.coord.crash_requested && w.violations.is_empty() {
+                let mut other = before.clone();
+                let mut rev: Vec<usize> = (0..n).collect();
+                rev.rotate_left(rot);
+                rev.reverse();
+                let mut ok_rev: BTreeSet<usize> = BTreeSet::new();
+                for i in rev {
+                    let r = guard(w, "finalize_inp(opposite order)", actor, |_| if v % 6 == 4 { other.finalize_inp_mall_mut(&secp, i) } else { other.finalize_inp_mut(&secp, i) });
+                    if let Some(Ok(())) = r {
+                        ok_rev.insert(i);
+                    }
+                }
+                let ok_fwd: BTreeSet<usize> = (0..n).filter(|i| !failed.contains(i)).collect();
+                w.stats.probe("i5_order_checked");
+                if ok_fwd != ok_rev {
+                    raise_class(
+                        w,
+                        "C14",
+                        "I5-order",
+                        "I5-order".to_string(),
+                        format!("finalising the inputs one by one succeeds for {:?} in one order and for {:?} in the opposite order ({})", ok_fwd, ok_rev, how),
+                        actor,
+                    );
+                }
+            }
         }
     }
     if any_err {
